@@ -86,7 +86,7 @@ def _was_pre():
 
 
 _C1 = dict(n_clusters=2, max_iter=2, learning_rate=0.05, solver="adam", batch_size=4, verbose=False, random_state=3)
-_C2 = dict(n_clusters=3, max_iter=3, learning_rate=0.1, solver="sgd", batch_size=None, verbose=False, random_state=5)
+_C2 = dict(n_clusters=3, max_iter=3, learning_rate=0.1, solver="sgd", batch_size=11, verbose=False, random_state=5)
 _N1 = {k: v for k, v in _C1.items() if k != "batch_size"}
 _N2 = {k: v for k, v in _C2.items() if k != "batch_size"}
 
@@ -130,7 +130,7 @@ SPECS = {
                                     lambda: dict(_N2, metric="euclidean", ovo=True, metric_params=None), "dist"),
     "Douglas": _spec(lambda: dict(_C1, gemini=_was_pre(), n_cuts=1, feature_mask=np.array([True, False, True]), temperature=0.5),
                      lambda: dict(_C2, gemini="chi2_ova", n_cuts=2, feature_mask=None, temperature=1.0), "dist"),
-    "Kauri": _spec(lambda: dict(max_clusters=3, max_depth=None, min_samples_split=2, min_samples_leaf=1, max_features=2,
+    "Kauri": _spec(lambda: dict(max_clusters=3, max_depth=None, min_samples_split=2, min_samples_leaf=1, max_features=5,
                                 max_leaves=None, kernel="precomputed", verbose=False, random_state=3),
                    lambda: dict(max_clusters=2, max_depth=2, min_samples_split=4, min_samples_leaf=2, max_features=1,
                                 max_leaves=3, kernel="linear", verbose=False, random_state=5), "kernel"),
